@@ -764,16 +764,16 @@ class ParallelProcess(Process):
         Returns:
             The command result.
         """
-        if not self._pending_command:
-            raise RuntimeError(
-                'Trying to retrieve command result, but no command is '
-                'pending.')
         if self._ended:
             # The child process is gone. Return the result that
             # ``end()`` collected, if any.
             result = self._command_result
             self._command_result = None
             return result
+        if not self._pending_command:
+            raise RuntimeError(
+                'Trying to retrieve command result, but no command is '
+                'pending.')
         self._pending_command = None
         return self.parent.recv()
 
